@@ -551,7 +551,9 @@ func DeleteConflicts(uuid dvid.UUID, data DataService, oldParents, newParents []
 			return err
 		}
 		parentsV[i] = oldV
-		if newParents[i] != dvid.NilUUID {
+		// A previous call (for another data instance) leaves the old parent's UUID in newParents[i]
+		// when no extension node was needed; that committed parent is not a node to add deletions to.
+		if newParents[i] != dvid.NilUUID && newParents[i] != oldUUID {
 			newV, err := manager.versionFromUUID(newParents[i])
 			if err != nil {
 				return err
